@@ -18,7 +18,8 @@ CHECKS = {
               " Virtual time passes (0/1/20/2000 ms) at every quiescent point of the generated schedule, so that timers inside the code under test fire while handlers are parked."
               " repeat: 1..3 unary methods called again and again (2..6 rounds of 1..4 concurrent calls, every topology, with or without metadata and deadline): every call gets its own handler's reply to its own request, each handler runs once per call - the main sub-check gives every call a method of its own."
               " net (http): the harness counts the POSTs the receiving end refused with 400 Bad Request; every envelope of these calls was produced by the library itself, so a refusal is reported as a violation even when the time budget has run out."
-              " In a third of the demux/proxy cases every client first makes a warm-up call and the Demux is told to Cancel its key (demux_key_returns): the calls of the case are the first envelopes of the key's next life."),
+              " In a third of the demux/proxy cases every client first makes a warm-up call and the Demux is told to Cancel its key (demux_key_returns): the calls of the case are the first envelopes of the key's next life."
+              " repeat: in a third of the cases the application keeps one reply object per concurrent slot and hands it to Invoke again in every round, and every third call is answered with the empty message."),
         jobs=[dict(test="TestC01", quick=1920, thorough=24000), dict(test="TestC01Net", quick=64, thorough=1000, shards=4), dict(test="TestC01Reuse", quick=200, thorough=2000, shards=4), dict(test="TestC01Repeat", quick=1600, thorough=16000)],
         floors={"TestC01:reordered=true": 0.15, "TestC01:topo=proxy": 0.1, "TestC01:topo=demux": 0.1, "TestC01:ser=true": 0.25, "TestC01:time_passes=true": 0.3, "TestC01:stats=true": 0.1, "TestC01Repeat:repeat.topo=proxy": 0.08, "TestC01Repeat:repeat.plain_calls=true": 0.2},
         assumptions=COMMON_ASSUMPTIONS,
@@ -33,8 +34,9 @@ CHECKS = {
               "Non-trivial = envelopes of >=2 calls interleaved on one connection, or >=11 messages one way, or separate sender/receiver goroutines; distinct = canonical case JSON hash."
               " burst: 2..64 bidi streams opened in the same instant (optionally through a spin barrier at the verif hook point in front of the id allocation, groups of 2/4/8 callers leaving it within nanoseconds), 1..4 messages each, 1..3 rounds; every stream receives exactly the echoes of its own messages and io.EOF, every handler instance sees one caller's messages only. writefault: one body or half-close write of a client-streaming exchange fails while reads stay healthy (fault error value drawn from kit.FaultErrKinds): the Send reports the failure or the message arrives."
               " Conversation cases may be preceded by 0..2 calls on an already cancelled context on every connection (they fail, and must leave the connection as good as new)."
-              " late: 1..4 server streams get 0..2 responses (with or without the trailer) delivered, then the connection fails, and only then do the callers start receiving: a completely delivered response is returned exactly, an incomplete one ends in an error, nobody blocks."),
-        jobs=[dict(test="TestC02", quick=4800, thorough=40000), dict(test="TestC02Race", quick=200, thorough=2000, shards=4), dict(test="FuzzC02", kind="fuzz", quick=0, thorough=90), dict(test="TestC02Fault", quick=300, thorough=3000, shards=4), dict(test="TestC02Burst", quick=800, thorough=8000), dict(test="TestC02Late", quick=800, thorough=8000)],
+              " late: 1..4 server streams get 0..2 responses (with or without the trailer) delivered, then the connection fails, and only then do the callers start receiving: a completely delivered response is returned exactly, an incomplete one ends in an error, nobody blocks."
+              " other-serve-ctx: one Server serves 2..3 connections through separate Serve calls with separate contexts; a ping-pong stream of 1..6 round trips runs on connection 0 while the context passed to Serve for another connection is cancelled at a drawn point: the stream delivers everything in order and ends with io.EOF, and a connection served by the same Server afterwards works."),
+        jobs=[dict(test="TestC02", quick=4800, thorough=40000), dict(test="TestC02Race", quick=200, thorough=2000, shards=4), dict(test="FuzzC02", kind="fuzz", quick=0, thorough=90), dict(test="TestC02Fault", quick=300, thorough=3000, shards=4), dict(test="TestC02Burst", quick=800, thorough=8000), dict(test="TestC02Late", quick=800, thorough=8000), dict(test="TestC02OtherCtx", quick=640, thorough=6000, shards=4)],
         floors={"TestC02:interleaved=true": 0.2, "TestC02:concurrent=true": 0.1, "TestC02:msgs>=11": 0.05, "TestC02:kind=client": 0.1, "TestC02:kind=server": 0.1, "TestC02:kind=bidi": 0.2, "TestC02:arm_end=true": 0.1, "TestC02Burst:burst.spin_barrier=true": 0.4, "TestC02:dead_calls_before=true": 0.15},
         assumptions=COMMON_ASSUMPTIONS,
     ),
@@ -49,8 +51,9 @@ CHECKS = {
               " The scripted-peer sub-check reaches the peer directly, through a goat.Proxy, or as a logical connection of a goat.Demux."
               " Status messages range from empty to 280 KB (ASCII and multi-byte, around 16 KiB and 64 KiB)."
               " cut: a handler of any of the four kinds fails, and the caller's transport read fails (9 error values incl. bare io.EOF; write side failing or not; caller parked in its receive or arriving later) while the envelope with that status is still in the transport: the caller must not be told the call succeeded."
-              " parked-send: a client-streaming or bidirectional handler returns (nil or any failure kind) while a further send of the caller, issued from a second goroutine, is parked inside the transport write; the caller's receive must report the handler's outcome, whatever the parked send returns afterwards."),
-        jobs=[dict(test="TestC03", quick=4800, thorough=40000), dict(test="TestC03Foreign", quick=800, thorough=10000, shards=4), dict(test="TestC03Race", quick=400, thorough=5000, shards=4), dict(test="TestC03Cut", quick=800, thorough=10000, shards=4), dict(test="TestC03ParkedSend", quick=800, thorough=10000, shards=4), dict(test="FuzzC03", kind="fuzz", quick=0, thorough=90)],
+              " parked-send: a client-streaming or bidirectional handler returns (nil or any failure kind) while a further send of the caller, issued from a second goroutine, is parked inside the transport write; the caller's receive must report the handler's outcome, whatever the parked send returns afterwards."
+              " late: the request carries a 30 ms grpc-timeout as plain metadata (the caller's context has no deadline); the handler of any kind waits for its context to end and then returns nil or a failure of any kind; directly, through a proxy or a demux: the caller observes exactly that outcome."),
+        jobs=[dict(test="TestC03", quick=4800, thorough=40000), dict(test="TestC03Foreign", quick=800, thorough=10000, shards=4), dict(test="TestC03Race", quick=400, thorough=5000, shards=4), dict(test="TestC03Cut", quick=800, thorough=10000, shards=4), dict(test="TestC03ParkedSend", quick=800, thorough=10000, shards=4), dict(test="TestC03Late", quick=800, thorough=10000, shards=4), dict(test="FuzzC03", kind="fuzz", quick=0, thorough=90)],
         floors={"TestC03:pos=mid-stream": 0.03, "TestC03:intercept=true": 0.1, "TestC03:api_order=close-twice": 0.05, "TestC03Foreign:foreign.via=proxy": 0.08, "TestC03Foreign:foreign.via=demux": 0.08, "TestC03Cut:cut.err=eof": 0.05, "TestC03Cut:cut.kind=unary": 0.1},
         assumptions=COMMON_ASSUMPTIONS,
     ),
@@ -75,7 +78,8 @@ CHECKS = {
               "response metadata only on the first response envelope; server emits only ids it has read. Non-trivial = a projection with >=4 envelopes or a reset, or an early handler return; distinct = canonical case hash."
               " unary-cancel: 1..6 unary calls whose caller cancels or times out while the handler runs or while the reply's transport write is pending; the history must still show exactly one request envelope and at most one response per id, and each handler runs once."
               " ended-at-open: 1..6 calls (all kinds) whose context is already cancelled or expired when they start, or ends while their first envelope is parked in the transport; whatever reaches the wire must be nothing or a proper opening (a reset as the first envelope of an id is rejected)."
-              " server-deadline: a scripted peer opens a stream with a 30 ms grpc-timeout, the handler lingers past it, 1..4 more bodies arrive, then the handler sends 0..2 messages and returns: no server reset for the still open stream, nothing after the trailer, exactly one trailer."),
+              " server-deadline: a scripted peer opens a stream with a 30 ms grpc-timeout, the handler lingers past it, 1..4 more bodies arrive, then the handler sends 0..2 messages and returns: no server reset for the still open stream, nothing after the trailer, exactly one trailer."
+              " In the proxy topology the clients address the server under an alias that the proxy's address-rewriting callback turns into the real name (half of the proxy cases): on the client's link every envelope of a call carries the alias, every response the real name as its source."),
         jobs=[dict(test="TestC06", quick=4800, thorough=60000), dict(test="TestC06Race", quick=300, thorough=3000, shards=4), dict(test="TestC06Cancel", quick=240, thorough=3000), dict(test="TestC06Unary", quick=800, thorough=8000), dict(test="TestC06Open", quick=800, thorough=8000), dict(test="TestC06Deadline", quick=800, thorough=8000)],
         floors={"TestC06:family=c01": 0.1, "TestC06:family=c02": 0.2, "TestC06:family=c03": 0.1, "TestC06:family=c04": 0.1, "TestC06:early_return=true": 0.1},
         assumptions=COMMON_ASSUMPTIONS,
@@ -89,7 +93,8 @@ CHECKS = {
               "Non-trivial = boundary digit count (1 or 8), saturating product, malformed/overlong class, remainder <1ms, non-canonical key spelling; distinct = distinct input string / case."
               " flood: 2..5 rounds of 2..32 unary calls drawn from two timeout values per round, released from one gate on 1..3 connections of one server; each handler's deadline must be its own caller's. In three fifths of the cases every handler takes 2, 40 or 300 ms of virtual time, so with more than eight calls in a round the later requests wait inside the server for a free worker: the handler's deadline must then lie between the caller's minus 1 ms and the caller's plus that transit."
               " abandon: 2..5 calls issued one after the other, all but the last cancelled while their request is written but not yet delivered (delayed delivery, by-reference or serialising link); each handler gets the deadline its own request carried."
-              " End-to-end api-mode calls carry outgoing metadata in half of the cases."),
+              " End-to-end api-mode calls carry outgoing metadata in half of the cases."
+              " e2e header mode: in a quarter of the cases a second timeout entry with a malformed value precedes the real one in the header list; the handler's deadline is what the well-formed entry says."),
         jobs=[dict(test="TestC08Grid", kind="enum", quick=1, thorough=1, shards=1),
               dict(test="TestC08Strings", quick=24000, thorough=1000000),
               dict(test="TestC08E2E", quick=1600, thorough=60000),
@@ -121,9 +126,10 @@ CHECKS = {
               "Non-trivial = >=2 unread bodies, >=3 unread responses, surplus envelopes, or >=1 bystander; distinct = distinct case."
               " In caller-cancel mode on bidi streams the abandonment may instead be a SendMsg that fails to encode its message, after which the caller walks away without cancelling."
               " In caller-cancel mode on bidi streams one SendMsg of the caller may be parked in the transport write at the cancellation."
-              " In handler-early mode the caller half-closes either after the handler has returned or (close_first) right after its last message, so that the half-close queues up in the server behind the unread messages while the handler is still busy; the grid covers both for every (k,n)."),
+              " In handler-early mode the caller half-closes either after the handler has returned or (close_first) right after its last message, so that the half-close queues up in the server behind the unread messages while the handler is still busy; the grid covers both for every (k,n)."
+              " failed-open: the transport delivers a stream's opening envelope but reports the write as failed, so the caller never serves that stream; its handler answers with 0..6 messages and returns: bystanders and the probe still complete."),
         jobs=[dict(test="TestC11Grid", kind="enum", quick=1, thorough=1, shards=1), dict(test="TestC11", quick=3200, thorough=20000), dict(test="FuzzC11", kind="fuzz", quick=0, thorough=90)],
-        floors={"TestC11:mode=handler-early": 0.15, "TestC11:mode=caller-cancel": 0.15, "TestC11:mode=client-extra": 0.12, "TestC11:mode=server-extra": 0.12, "TestC11:send_fail=true": 0.012, "TestC11:early_trailer=true": 0.03, "TestC11:park_send=true": 0.01, "TestC11:close_first=true": 0.08},
+        floors={"TestC11:mode=handler-early": 0.15, "TestC11:mode=caller-cancel": 0.15, "TestC11:mode=client-extra": 0.12, "TestC11:mode=server-extra": 0.12, "TestC11:send_fail=true": 0.012, "TestC11:early_trailer=true": 0.03, "TestC11:park_send=true": 0.01, "TestC11:close_first=true": 0.08, "TestC11:mode=failed-open": 0.1},
         assumptions=COMMON_ASSUMPTIONS + ["a caller that stops reading without cancelling is documented head-of-line blocking (the quantifier lists cancellation) and is not generated"],
     ),
     "C09": dict(
@@ -167,8 +173,11 @@ CHECKS = {
               " Configurations rotate / are drawn: server stats handler; unary handlers that call SetHeader, SendHeader twice, SetHeader and SetTrailer."
               " 0..3 well-formed unary requests are sent first to a handler that returns only after the final shutdown (a handler outliving its connection must not crash the process)."
               " For the echo method, in sequences where every envelope is digested before the next, a body arriving after the stream was opened, ended by its caller (OK trailer or reset) and left by its handler must be answered with a reset."
-              " The alphabet includes method names '/', '/u', '//' and '/<service>/'."),
+              " The alphabet includes method names '/', '/u', '//' and '/<service>/'."
+              " Destinations that nearly match the server's name (other case, a prefix, trailing blank) are in the alphabet as malformed shapes."
+              " A fifth of the random sequences start with a whole life of the echo stream (open, 0..2 messages, half-close or reset, 0..2 envelopes on the other id, 1..2 further bodies for the stream that is gone), one envelope at a time, followed by a random tail."),
         jobs=[dict(test="TestC12Enum", kind="enum", quick=1, thorough=1), dict(test="TestC12", quick=3200, thorough=40000), dict(test="FuzzC12", kind="fuzz", quick=0, thorough=150), dict(test="TestC12Reuse", quick=300, thorough=3000, shards=4)],
+        floors={"TestC12:body_after_stream_end=true": 0.08},
         assumptions=COMMON_ASSUMPTIONS,
         exhaustive_all=False,
     ),
@@ -180,8 +189,9 @@ CHECKS = {
               "Oracle: no crash; every API call (Invoke, Header, RecvMsg loop, Trailer) has returned after the close; a unary success carries a body some envelope addressed to that call carried; successful receives are an in-order subsequence of the bodies addressed to the stream; io.EOF only after a trailer with OK/absent status addressed to the stream and no earlier reset. "
               "Non-trivial = at least one envelope addressed to an outstanding call."
               " In half of the random cases the 'id nobody uses' is the id of a third call whose opening write was parked in the transport when its context ended."
-              " The alphabet includes resets that carry an explicit OK status (with and without trailer)."),
-        jobs=[dict(test="TestC13Enum", kind="enum", quick=1, thorough=1), dict(test="TestC13", quick=3200, thorough=40000), dict(test="FuzzC13", kind="fuzz", quick=0, thorough=150)],
+              " The alphabet includes resets that carry an explicit OK status (with and without trailer)."
+              " twins: 2..6 unary and streaming calls take their ids within nanoseconds of each other (spin barrier at the verif hook points), the scripted peer answers each id it saw once or not at all, then the connection closes: every call has terminated."),
+        jobs=[dict(test="TestC13Enum", kind="enum", quick=1, thorough=1), dict(test="TestC13", quick=3200, thorough=40000), dict(test="TestC13Twins", quick=640, thorough=8000, shards=4), dict(test="FuzzC13", kind="fuzz", quick=0, thorough=150)],
         assumptions=COMMON_ASSUMPTIONS,
     ),
     "C05": dict(
@@ -197,10 +207,11 @@ CHECKS = {
               " order: one response write of a server stream fails once with a drawn error kind (some look transient), the stream stays open for 100 ms of virtual time: what a caller receives is its own stream's messages in order, none twice, and io.EOF only with all of them."
               " abandon: 2..6 unary calls issued one after the other, all but the last cancelled while their (slow, context-ignoring) handler runs; handlers released in a drawn order; the surviving call gets its own reply, never the late reply of an abandoned one."
               " pace: one bidirectional stream on each of 1..3 connections, both sides sending 0..8 messages back to back while each side receives at its own pace (pauses of 0..60 ms before every receive, so envelopes back up for longer than any timer inside the library); in a bubble (virtual time) and, as a separate job, in real time (pauses capped at 25 ms): each side receives exactly the other side's messages in order, then io.EOF."
-              " shared-md: every handler passes the application's one fixed header object (and one fixed trailer object) to SetHeader/SetTrailer and then adds per-call values with a second call; 2..8 calls of all kinds, 1..3 at a time: every caller sees the fixed values once and exactly its own per-call values, and the shared objects are unchanged."),
+              " shared-md: every handler passes the application's one fixed header object (and one fixed trailer object) to SetHeader/SetTrailer and then adds per-call values with a second call; 2..8 calls of all kinds, 1..3 at a time: every caller sees the fixed values once and exactly its own per-call values, and the shared objects are unchanged."
+              " On the server side the scripted caller numbers its calls from a drawn base: 100, 0xD7FE, 0xD800, 0x10FFFE, 0x110000, 2^32, 2^63 or 2^64-9 (ids a client reaches late in a long-lived connection's life, or far out in the uint64 range); the enumeration rotates through the same bases."),
         jobs=[dict(test="TestC05Enum", kind="enum", quick=1, thorough=1), dict(test="TestC05", quick=3200, thorough=20000), dict(test="TestC05IDs", quick=1280, thorough=8000), dict(test="TestC05Pace", quick=1200, thorough=12000, shards=4), dict(test="TestC05PaceReal", quick=96, thorough=1600, shards=8), dict(test="TestC05SharedMD", quick=480, thorough=6000, shards=4),
               dict(test="TestC05History", kind="enum", quick=1, thorough=1, shards=1), dict(test="TestC05Reuse", quick=200, thorough=2000, shards=4), dict(test="TestC05Left", quick=1600, thorough=16000), dict(test="TestC05Order", quick=1600, thorough=16000), dict(test="TestC05Abandon", quick=800, thorough=8000)],
-        floors={"TestC05:side=client": 0.25, "TestC05:side=server": 0.25, "TestC05:pooled_payloads=true": 0.3, "TestC05IDs:slow_handlers=true": 0.3, "TestC05IDs:spin_barrier=true": 0.4, "TestC05Pace:pace.slow_receiver=true": 0.5},
+        floors={"TestC05:side=client": 0.25, "TestC05:side=server": 0.25, "TestC05:pooled_payloads=true": 0.3, "TestC05IDs:slow_handlers=true": 0.3, "TestC05IDs:spin_barrier=true": 0.4, "TestC05Pace:pace.slow_receiver=true": 0.5, "TestC05:high_ids=true": 0.2},
         assumptions=COMMON_ASSUMPTIONS,
     ),
     "C14": dict(
@@ -228,7 +239,8 @@ CHECKS = {
               " One Server serves two unary and two stream methods; each RPC of a case calls one of them (drawn); server interceptors record the FullMethod they are told, which must be the called one."
               " For unary ok/herr RPCs the Serve context may have been cancelled beforehand (goat keeps serving; every interceptor and stats handler must still see every RPC)."
               " Under the transport outcome the RPC that was cut off must fail for the caller whatever error value the transport failed with."
-              " send-fault: a client-streaming or bidirectional call whose caller's J-th message (J=0..3) is refused by the transport (9 error values, connection otherwise healthy), after 0..2 earlier RPCs, with 1..3 client and 0..2 server stats handlers: every client handler sees exactly one Begin, first, and exactly one End with a non-nil error; server handlers see complete Begin..End pairs."),
+              " send-fault: a client-streaming or bidirectional call whose caller's J-th message (J=0..3) is refused by the transport (9 error values, connection otherwise healthy), after 0..2 earlier RPCs, with 1..3 client and 0..2 server stats handlers: every client handler sees exactly one Begin, first, and exactly one End with a non-nil error; server handlers see complete Begin..End pairs."
+              " An interceptor that rewrites the error also attaches a status detail of its own (keeping those already there); the caller must see the details of the whole chain, innermost first."),
         jobs=[dict(test="TestC20", quick=4800, thorough=30000), dict(test="FuzzC20", kind="fuzz", quick=0, thorough=90), dict(test="TestC20Overlap", quick=400, thorough=4000, shards=4), dict(test="TestC20SendFault", quick=800, thorough=8000, shards=4)],
         floors={"TestC20:outcome=cancel": 0.08, "TestC20:outcome=transport": 0.06, "TestC20:outcome=openfail": 0.05, "TestC20:chain=6": 0.08, "TestC20:single=true": 0.03, "TestC20:unread=true": 0.02, "TestC20:late_cancel=true": 0.02, "TestC20:handler_error=eof": 0.02, "TestC20:transport_error=eof": 0.004},
         assumptions=COMMON_ASSUMPTIONS + ["a caller's cancellation of a unary call is not conveyed to the server by goat (no reset for unary calls); the harness releases such handlers itself"],
@@ -245,9 +257,10 @@ CHECKS = {
               "Non-trivial = >=2 sources to one destination, a dial-on-demand peer, a rewrite, >=2 proxy clients, or a burst."
               " In a quarter of the envelope-level cases client c0 attaches again under its name before envelope k (the old connection stays up): nothing may reach the superseded connection afterwards."
               " write-fault: a server-streaming or bidirectional call relayed client -> proxy -> demux -> server, 2..10 messages; one proxy-to-client write fails once with a drawn error kind (some look transient); what the caller receives must be a prefix of what the handler sent, and io.EOF only after all of it."
-              " pace: the C05 pace cases (one bidirectional stream on each of 1..3 client connections, both sides sending 0..8 messages back to back, each side receiving at its own pace) relayed through the proxy and the demux behind it, with pauses of up to 3 s of virtual time before a receive: each side receives exactly the other side's messages in order, then io.EOF."),
+              " pace: the C05 pace cases (one bidirectional stream on each of 1..3 client connections, both sides sending 0..8 messages back to back, each side receiving at its own pace) relayed through the proxy and the demux behind it, with pauses of up to 3 s of virtual time before a receive: each side receives exactly the other side's messages in order, then io.EOF."
+              " envelopes: one envelope in eight is one the proxy must refuse (no header, or a source that is not the sending connection's name); it is delivered nowhere and the routing of everything after it - to and from the peer that sent it - is unchanged."),
         jobs=[dict(test="TestC16", quick=1600, thorough=20000), dict(test="TestC16RPC", quick=960, thorough=12000), dict(test="TestC16Burst", quick=64, thorough=1000, shards=4), dict(test="TestC16Attach", quick=1600, thorough=24000), dict(test="TestC16WriteFault", quick=800, thorough=10000, shards=4), dict(test="TestC16Pace", quick=800, thorough=8000, shards=4), dict(test="FuzzC16", kind="fuzz", quick=0, thorough=90)],
-        floors={"TestC16:dial_on_demand=true": 0.3, "TestC16:rewrite=alias": 0.1, "TestC16:late_dialable=true": 0.05, "TestC16Burst:burst.rpc=true": 0.2, "TestC16Attach:attach.sender=other": 0.3, "TestC16:reattach=true": 0.1, "TestC16WriteFault:fault.err=deadline": 0.05},
+        floors={"TestC16:dial_on_demand=true": 0.3, "TestC16:rewrite=alias": 0.1, "TestC16:late_dialable=true": 0.05, "TestC16Burst:burst.rpc=true": 0.2, "TestC16Attach:attach.sender=other": 0.3, "TestC16:reattach=true": 0.1, "TestC16WriteFault:fault.err=deadline": 0.05, "TestC16:refused_envelopes=true": 0.5},
         assumptions=COMMON_ASSUMPTIONS + ["loss is attributed to buffer overflow through the verif-tagged counter at the proxy's drop site"],
     ),
     "C17": dict(
@@ -275,8 +288,9 @@ CHECKS = {
               " Envelopes in the model-based histories carry status / trailer / reset / header metadata as a function of their id and are compared with proto.Equal in both directions."
               " Key 0 optionally has an unusual value (empty string, blank, separators, non-ASCII)."
               " parked: once the stalled shared-transport write has completed, every write the logical connection had accepted (returned nil) before the key was cancelled is on the shared transport exactly once, and none of the refused ones is."
-              " pace: the same through a Demux keyed by source (harness fan-in instead of a proxy)."),
-        jobs=[dict(test="TestC18", quick=6400, thorough=80000), dict(test="TestC18RPC", quick=320, thorough=8000), dict(test="TestC18Parked", quick=300, thorough=3000, shards=4), dict(test="TestC18Storm", quick=1600, thorough=16000), dict(test="TestC18WriteFault", quick=640, thorough=6400), dict(test="TestC18Pace", quick=800, thorough=8000, shards=4), dict(test="FuzzC18", kind="fuzz", quick=0, thorough=90)],
+              " pace: the same through a Demux keyed by source (harness fan-in instead of a proxy)."
+              " dead-ctx-read: 1..12 envelopes for one key are fed while nobody reads; 1..12 Reads are then given a context that has already ended (each may return an envelope or the context's error), mixed with or followed by live reads: all envelopes are handed over exactly once, in order."),
+        jobs=[dict(test="TestC18", quick=6400, thorough=80000), dict(test="TestC18RPC", quick=320, thorough=8000), dict(test="TestC18Parked", quick=300, thorough=3000, shards=4), dict(test="TestC18Storm", quick=1600, thorough=16000), dict(test="TestC18WriteFault", quick=640, thorough=6400), dict(test="TestC18Pace", quick=800, thorough=8000, shards=4), dict(test="TestC18DeadRead", quick=800, thorough=8000, shards=4), dict(test="FuzzC18", kind="fuzz", quick=0, thorough=90)],
         floors={"TestC18:cancel=true": 0.3, "TestC18:stop=true": 0.03, "TestC18:cancel_while_parked=true": 0.03, "TestC18Storm:storm.cancels=true": 0.5, "TestC18Storm:storm.write_faults=true": 0.1},
         assumptions=COMMON_ASSUMPTIONS,
     ),
